@@ -19,7 +19,7 @@ def run_conc(ctx, procs, extra):
         os.makedirs(d, exist_ok=True)
         cmd = [harness_bin("conc"), "--seed", str(ctx.seed * 1000 + i), "--out", d] + extra
         try:
-            r = subprocess.run(cmd, stdout=subprocess.PIPE, stderr=subprocess.PIPE, timeout=3000)
+            r = subprocess.run(cmd, stdout=subprocess.PIPE, stderr=subprocess.PIPE, timeout=420 if ctx.tier == "quick" else 3000)
         except subprocess.TimeoutExpired:
             return {"dir": d, "crash": "TIMEOUT: the conc harness did not finish\n# re-run: %s" % " ".join(cmd)}
         if r.returncode != 0:
